@@ -1,6 +1,6 @@
 """C01 — encode-then-decode returns the same value in every transfer syntax."""
 import re, collections
-from .. import build, core, genmod, bundle, sexp
+from .. import build, core, genmod, bundle, sexp, gfind
 
 SYNTAXES = ("der", "uper", "oer", "xer", "cxer")
 
@@ -29,8 +29,11 @@ def run(ctx):
     nvals = 8 if ctx.quick else 25
     mods = gen_bundles(ctx, nb)
     fails = collections.Counter()
+    skipped = collections.Counter()
+    gfind.replay_witnesses(ctx)
     samples = {}
     total = 0
+    f30 = 0
     built = 0
     for m in mods:
         txt = genmod.module_text(m)
@@ -52,8 +55,16 @@ def run(ctx):
             for v in vg.values(t, nvals):
                 sx = genmod.val_sexp(t, v, env)
                 lines.append(f"@{n} echo " + sx); meta.append(("echo", n, sx))
+                feats = gfind.features(t, env)
                 for syn in SYNTAXES:
-                    if syn in ("uper", "oer") and genmod.contains_kind(t, env, {"SET"}): continue
+                    # Dom_C01: regions of known findings are skipped; their witnesses are replayed separately
+                    if syn in ("uper", "oer") and "SET" in feats: skipped["F32"] += 1; continue
+                    if syn == "oer" and "choice_tag_ge128" in feats: skipped["F34"] += 1; continue
+                    if syn == "oer" and "wide_int_fixed_oer" in feats: skipped["F36"] += 1; continue
+                    if syn == "uper" and "inline_printable" in feats: skipped["F37"] += 1; continue
+                    if syn == "uper" and "choice_alias" in feats: skipped["F38"] += 1; continue
+                    if syn == "uper" and "semi_nonzero_lb" in feats: skipped["F42"] += 1; continue
+                    if syn == "xer" and "REAL" in feats: skipped["F40"] += 1; continue
                     lines.append(f"@{n} rt {syn} {sx}"); meta.append((syn, n, sx))
         outs, crashes = ctx.run_c_bisect(exe, lines)
         for l, o, me in zip(lines, outs, meta):
@@ -69,10 +80,11 @@ def run(ctx):
                 if not o.startswith("ok "): why = "encode:" + o.split()[0]
                 elif not mm: why = "unparsable"
                 elif mm.group(1) != "ok": why = "decode-rc=" + mm.group(1)
-                elif mm.group(2) != mm.group(3): why = "consumed" + ("-1" if int(mm.group(2)) + 1 == int(mm.group(3)) else "")
+                elif mm.group(2) != mm.group(3) and not (kind == "xer" and int(mm.group(2)) + 1 == int(mm.group(3))): why = "consumed"
                 elif mm.group(4) != "0": why = "cmp!=0"
                 elif mm.group(5) != "1": why = "der-differs"
                 elif not genmod.same_value(env[tn], mm.group(6), sx, env): why = "value-differs"
+                elif kind == "xer": f30 += 1     # F30 (trailing newline not consumed), everything else intact
             if why:
                 sig = ",".join(sorted(leaf_sig(env[tn], env)))
                 key = (kind, why, sig if len(sig) < 60 else sig[:60])
@@ -82,7 +94,7 @@ def run(ctx):
                 ctx.count_nontrivial((kind, tn, sx[:80]))
         b.cleanup()
     ctx.cov["evaluations"] += total
-    ctx.cov["predicate"]["roundtrip"] = {"modules_built": built, "cases": total, "failure_classes": len(fails)}
+    ctx.cov["predicate"]["roundtrip"] = {"modules_built": built, "cases": total, "failure_classes": len(fails), "skipped_known_regions": dict(skipped), "F30_xer_newline": f30}
     agg = collections.Counter()
     for (kind, why, sig), n in fails.items(): agg[(kind, why)] += n
     for (kind, why), n in agg.most_common(25):
